@@ -65,8 +65,21 @@ class Checker:
             b = Scalar.CreateWithQuantity(qb, vb[0])
             va, vb = va[:1], vb[:1]
         else:
-            a = Array.CreateWithQuantity(qa, gen.as_container(kind, va))
-            b = Array.CreateWithQuantity(qb, gen.as_container(kind, vb))
+            # the two operands need not share a container kind, and a numpy operand may hold integers: the other
+            # operand's amounts are what they are, whatever dtype its partner has
+            ka, kb = kind, case.get("kind_b", kind)
+            if case.get("int_a") and ka == "ndarray":
+                va = [float(round(x)) or 1.0 for x in va]
+                ka = "ndarray_int"
+                ctx.cls("integer_ndarray_operand")
+            if case.get("int_b") and kb == "ndarray":
+                vb = [float(round(x)) or 1.0 for x in vb]
+                kb = "ndarray_int"
+                ctx.cls("integer_ndarray_operand")
+            if ka != kb:
+                ctx.cls("operands_in_different_containers")
+            a = Array.CreateWithQuantity(qa, gen.as_container(ka, va))
+            b = Array.CreateWithQuantity(qb, gen.as_container(kb, vb))
         op = case["op"]
         r = a + b if op == "+" else a - b
         ctx.ev()
@@ -229,6 +242,9 @@ def _strategies(ch):
             "route_a": draw(st.sampled_from(["direct", "arith"])),
             "route_b": draw(st.sampled_from(["direct", "arith"])),
             "kind": kind,
+            "kind_b": kind if kind == "scalar" else draw(st.sampled_from([kind, kind, "list", "tuple", "ndarray"])),
+            "int_a": draw(st.sampled_from([False, False, True])),
+            "int_b": draw(st.sampled_from([False, False, False, True])),
         }
 
     db = ch.db
